@@ -140,6 +140,9 @@ class Scenario:
         self.subs: list = []
         self._subscribe('state')
         self._subscribe('trace_ids')
+        # iterators handed out now but not advanced until after close(): they too must terminate
+        self.lazy = {'state': nl.subscribe_state(), 'trace_ids': nl.subscribe_trace_ids(), 'run_info': nl.subscribe_run_info(),
+                     'run_no': nl.subscribe_run_no(), 'continuous_enabled': nl.subscribe_continuous_enabled()}
         await settle()
 
     def _subscribe(self, what: str) -> None:
@@ -377,6 +380,15 @@ class Scenario:
         for _, t in self.pending:
             t.cancel()
         info['subscribers_done_after_close'] = [t.done() for t in self.subs]
+        if self.nl.state == 'closed':
+            async def drain(it: Any) -> None:
+                async for _ in it:
+                    pass
+            lazy_tasks = {k: asyncio.ensure_future(drain(it)) for k, it in self.lazy.items()}
+            await settle()
+            info['lazy_not_terminated'] = sorted(k for k, t in lazy_tasks.items() if not t.done())
+            for t in lazy_tasks.values():
+                t.cancel()
         for t in self.subs:
             t.cancel()
         if self.cont_task is not None:
